@@ -230,7 +230,10 @@ register("C08", {
             "C01 (token, exchange order), C04 (limit invariant), C07 (deadlock, serviceable "
             "waiter) and the strict outcome oracle (no fault => no failure; a failure is "
             "attributed through the ledger to the thread that closed the wire); all runs "
-            "non-trivial",
+            "non-trivial; plus PCT-style priority schedules and the systematic delay sweep: "
+            "for every thread and every distinct source line of httpcore/_sync it executes "
+            "without holding a lock, one run with that thread parked there until nobody else "
+            "can progress",
     "assumptions": ["pre-emption inside h11/h2/hpack calls is not explored; no-GIL memory "
                     "effects are not modelled"],
 }, FAMS)
